@@ -307,6 +307,7 @@ func runMuxOn(sc *muxScenario, rec *recorder, w *recWriter) {
 		e["part"] = delta % 188
 		e["wcalls"] = w.wcalls - wcBefore
 		e["wfail"] = w.fired > firedBefore
+		e["wfull"] = w.fault != nil && (w.fault.Mode == "oncefull" || w.fault.Mode == "permfull") // the failing Write took all it was given
 		if op.Pred != nil {
 			e["pred"] = *op.Pred
 		}
